@@ -24,7 +24,15 @@
 namespace sim {
 
 // one simulated operating-system process (an MPI rank, or the single process of a TBB run)
+struct ProcCtx;
+inline std::set<ProcCtx*>& live_procs() { static std::set<ProcCtx*> *s = new std::set<ProcCtx*>(); return *s; }
 struct ProcCtx {
+    // a simulated process lives for one run; objects of the library that outlive it (function-local
+    // statics such as the global_control kept by set_global_tbb_concurrency) must not touch a later one
+    ProcCtx() { IgnoreGuard ig; live_procs().insert(this); }
+    ~ProcCtx() { IgnoreGuard ig; live_procs().erase(this); }
+    ProcCtx(const ProcCtx&) = delete;
+    ProcCtx& operator=(const ProcCtx&) = delete;
     int rank = 0, nprocs = 1;
     Arena *arena = nullptr;
     std::string out, err;                       // captured std::cout / std::cerr
